@@ -18,6 +18,9 @@ def sched(name, test, quick_cases, thorough_cases, schedules_quick=24, schedules
     if free:
         env["VERIF_MODE"] = "free"
         st["pin"] = False
+        # a free-running hang (a real deadlock of std threads) can only be ended by the wall-clock watchdog; it is
+        # inconclusive by itself - the scheduler stage decides deadlocks logically
+        st["watchdog_s"] = {"quick": 150, "thorough": 1800}
     return st
 
 SCHED_ASSUME = [
